@@ -166,6 +166,15 @@ def check_mesh(ctx, cfg, with_model=True):
     for t, ok in zip(T, tri_ok):
         if not ok:
             site_ok[t] = False
+    # how many boundary sites sit at reentrant corners (their completed cell is non-convex: the branch of
+    # compute_voronoi_polygon_areas that subtracts the concave triangle)
+    ang = np.zeros(n)
+    for t in T:
+        for k_ in range(3):
+            a0, b0, c0 = P[t[k_]], P[t[(k_ + 1) % 3]], P[t[(k_ + 2) % 3]]
+            u_, v_ = b0 - a0, c0 - a0
+            ang[t[k_]] += np.arccos(np.clip(u_ @ v_ / (np.linalg.norm(u_) * np.linalg.norm(v_)), -1, 1))
+    ctx.count("boundary_sites_at_reentrant_corners", int((ang[bsites] > np.pi + 1e-6).sum()))
     ctx.count("sites_locally_delaunay", int(site_ok.sum()))
     ctx.count("sites_excluded", int((~site_ok).sum()))
     cells = voronoi_cells(mesh, domain, radius=3.5 * em.edge_lengths.max())
